@@ -91,6 +91,7 @@ def run(chk):
     chk.trusted.append('harness/shape.py: AST lookup of the statements mirrored by the hand model (Gen/C10Shape.v)')
     proved = chk.prove(['theories/Gen/C10Shape.v', 'theories/C10/Model.v', 'theories/C10/Proofs.v', 'theories/C10/Run.v'], 'theories/C10/Properties.v')
     proved = chk.prove(['theories/C10/CastTable.v'], 'theories/C10/CastTableProperties.v') and proved
+    proved = chk.prove(['theories/C15/Keys.v', 'theories/C10/CastValue.v'], 'theories/C10/CastValueProperties.v') and proved
     model_ok = True
     if not proved:
         try:
@@ -390,6 +391,57 @@ def run(chk):
         if allowed and k[0] == 'val' and f[0] == 'val' and not (k[1] == f[1] or (k[1] != k[1] and f[1] != f[1])):
             chk.violation('impl-vs-spec', desc, {'cast as': repr(k[1]), 'constructor function': repr(f[1])})
         chk.nontrivial.add(repr(('cast', a, b)))
+    # ---- value-level casts in the numeric / boolean family (C10/CastValue.v)
+    from fractions import Fraction as _Fr
+    from decimal import Decimal as _Dc
+    NUMS = [('0', 0, 1), ('1', 1, 1), ('-1', -1, 1), ('7', 7, 1), ('1.9', 19, 10), ('-1.9', -19, 10), ('0.5', 1, 2), ('-0.5', -1, 2),
+            ('2.5', 5, 2), ('-2.5', -5, 2), ('0.0', 0, 1), ('-0.0', 0, 1), ('1e0', 1, 1), ('1.9e0', 19, 10), ('-1.9e0', -19, 10), ('0e0', 0, 1),
+            ('-0e0', 0, 1), ('2.5e0', 5, 2), ('1e30', 10 ** 30, 1), ("xs:double('NaN')", 'NNaN', 0), ("xs:double('INF')", 'NPInf', 0),
+            ("xs:double('-INF')", 'NNInf', 0), ("xs:float('1.5')", 3, 2), ("xs:float('-0.5')", -1, 2), ("xs:float('NaN')", 'NNaN', 0),
+            ("xs:float('-INF')", 'NNInf', 0), ('99999999999999999999.9', 999999999999999999999, 10), ('-7.0', -7, 1)]
+    for _ in range(20 if quick else 400):
+        n, d = rng.randint(-5000, 5000), rng.choice([1, 2, 4, 5, 8, 10, 16, 100])
+        NUMS.append((f'{_Dc(n) / _Dc(d)}', n, d))
+        if d in (1, 2, 4, 8, 16):
+            NUMS.append((f'{float(_Fr(n, d))!r}e0' if 'e' not in repr(float(_Fr(n, d))) else f'xs:double("{float(_Fr(n, d))!r}")', n, d))
+    def exact(expr, n, d):
+        # xs:double / xs:float literals denote the binary value nearest to the decimal numeral: use it exactly
+        if isinstance(n, int) and ('e' in expr or 'E' in expr):
+            fr = _Fr(float(_Fr(n, d)))
+            return fr.numerator, fr.denominator
+        return n, d
+    NUMS = [(e,) + exact(e, n, d) for e, n, d in NUMS]
+    vterms, vmeta = [], []
+    for expr, n, d in NUMS:
+        lit = n if isinstance(n, str) else (f'NFin ({n}) {d}')
+        for target in (0, 1, 2):
+            vterms.append(f'run_cast_value {target} ({lit})')
+            vmeta.append((expr, target))
+    vmodel = core.run_coq_cases('C10', 'From EP Require Import C15.Keys C10.CastValue.', vterms, chunk=400, tag='castvalue') if model_ok else [None] * len(vterms)
+    TGT = {0: 'integer', 1: 'decimal', 2: 'boolean'}
+    for (expr, target), mo in zip(vmeta, vmodel):
+        chk.evaluations += 1
+        chk.count('cast-value')
+        if mo is None:
+            continue
+        desc = {'value': expr, 'target': 'xs:' + TGT[target]}
+        want = ('err', 'FOCA0002') if list(mo) == [-1] else ('val', _Fr(mo[1], mo[2]))
+        for form in (f'{expr} cast as xs:{TGT[target]}', f'xs:{TGT[target]}({expr})'):
+            o = cev(form)
+            got = ('val', _Fr(int(o[1]) if isinstance(o[1], bool) else o[1])) if o[0] == 'val' else o
+            if got != want:
+                chk.corr_fail.append((desc | {'form': form}, str(got), str(want)))
+                chk.violation('impl-vs-spec', desc | {'form': form}, {'impl': str(got), 'spec': str(want)})
+        c = cev(f'{expr} castable as xs:{TGT[target]}')
+        if c != ('val', want[0] == 'val'):
+            chk.violation('impl-vs-spec', desc, {'castable as': str(c), 'spec': want[0] == 'val'})
+        chk.nontrivial.add(repr(('castvalue', expr, target)))
+    for b in ('true()', 'false()'):
+        for t, w in (('integer', int(b == 'true()')), ('decimal', int(b == 'true()')), ('double', float(b == 'true()')), ('float', float(b == 'true()'))):
+            o = cev(f'{b} cast as xs:{t}')
+            chk.evaluations += 1
+            if o != ('val', w):
+                chk.violation('impl-vs-spec', {'value': b, 'target': 'xs:' + t}, {'impl': str(o), 'spec': w})
     chk.rule = ('13 integer types x {boundary values +-1, random values, malformed numerals} decorated with whitespace / sign / leading zeros, through '
                 'the class, is_valid, xs:T(), cast as, castable as and from xs:untypedAtomic; generated and mutated lexical forms of decimal, '
                 'boolean, double, float, hexBinary, base64Binary; canonical strings of integers, decimals and doubles; hexBinary <-> base64Binary '
